@@ -29,6 +29,7 @@ func init() {
 	register("C05", genC05)
 	register("C04", genC05)
 	replayers["c05.format"] = func(c *Ctx, m map[string]any) map[string]any {
+		currentProp = c.Prop
 		doc := unhx(m["doc"].(string))
 		formats := formatsFromJ(m["formats"])
 		o, _ := m["opts"].(map[string]any)
@@ -192,7 +193,7 @@ func formatCaseTree(doc string, j *ast.Journal, errs []parser.ParseError, format
 	out := map[string]any{
 		"doc": hx(doc), "tree": journalJ(j), "errs": perrsJ(errs), "formats": formatsJ(formats),
 		"opts": J{"indent": opts.IndentSize, "align": opts.AlignAmounts, "mincol": opts.MinAlignmentColumn},
-		"impl": editsJ(edits), "mut": mut,
+		"impl": editsJ(edits), "mut": mut, "prop": currentProp,
 	}
 	if mut != "" {
 		return out
@@ -750,7 +751,11 @@ func (g *g5) workspaceFormats() map[string]formatter.NumberFormat {
 var fmtOdd = []string{"", " ", "abc", "1", "1.", ".5", "1,2,3", "1.2.3", "1 2 3", "$", "$ 1,000.00", "1,000.00 EUR x 2.5", "٣٤٥.٦٧", "1٣.٥٥ X",
 	"\xff1.00", "1.00\xe2\x82", "€1.000,00", "1 000 000,000", "  12.50  ", "a1b2.0", "1..2", "1,.2", "1 ,2", "１２.３４", "𝟏𝟐.𝟑𝟒 Z", "EUR 1,5 €"}
 
+// currentProp tells the driver which property's oracle to apply ("C04" or "C05").
+var currentProp string
+
 func genC05(c *Ctx) {
+	currentProp = c.Prop
 	g := &g5{r: c.R, c: c}
 	c.Emit("c05.nd", ndCase())
 
